@@ -648,6 +648,30 @@ func (ex *Exec) errorf(format string, ops []Value) Value {
 	}
 }
 
+// bytesEq compares two explicit byte strings as whole bit-vectors (adjacent
+// extracts of one term are fused, so two digests compare as one equality).
+func (ex *Exec) bytesEq(p, q []Value) Value {
+	if len(p) != len(q) {
+		return false
+	}
+	if len(p) == 0 {
+		return true
+	}
+	pc, pok := concBytes(p)
+	qc, qok := concBytes(q)
+	if pok && qok {
+		return bytes.Equal(pc, qc)
+	}
+	// split at literal mismatches early
+	for i := range p {
+		a, b := p[i].(Int), q[i].(Int)
+		if a.T == nil && b.T == nil && a.C != b.C {
+			return false
+		}
+	}
+	return mkBool(Eq(bvOfBytes(p), bvOfBytes(q)))
+}
+
 // ---------- registration ----------
 
 type lockState struct {
@@ -999,18 +1023,17 @@ func registerStdlib(e *Engine) {
 		return concatStr(parts)
 	}
 	x["bytes.Equal"] = func(ex *Exec, c *frame, f *ssa.Function, a []Value) Value {
-		p, q := a[0].(Slice), a[1].(Slice)
-		if len(p) != len(q) {
-			return false
-		}
-		var acc Value = true
-		for i := range p {
-			acc = ex.andVal(acc, ex.eqVal(types.Typ[types.Uint8], p[i], q[i]))
-			if acc == false {
-				return false
+		return ex.bytesEq(a[0].(Slice), a[1].(Slice))
+	}
+	x["crypto/subtle.ConstantTimeCompare"] = func(ex *Exec, c *frame, f *ssa.Function, a []Value) Value {
+		r := ex.bytesEq(a[0].(Slice), a[1].(Slice))
+		if b, ok := r.(bool); ok {
+			if b {
+				return CInt(1, 64)
 			}
+			return CInt(0, 64)
 		}
-		return acc
+		return SInt(Ite(boolTerm(r), BVConst(1, 64), BVConst(0, 64)))
 	}
 	e.native("bytes.Compare", bytes.Compare, nil)
 	e.native("bytes.Contains", bytes.Contains, nil)
@@ -1055,6 +1078,7 @@ func registerStdlib(e *Engine) {
 	x["os.LookupEnv"] = func(ex *Exec, c *frame, f *ssa.Function, a []Value) Value { return Tuple{"", false} }
 
 	registerTime(e)
+	registerProto(e)
 }
 
 // streaming sha256: hash.Hash object backed by a side-table buffer.
